@@ -1,7 +1,7 @@
 (* Case decoding for the end-to-end codec groups of the correspondence check (see harness/src/codec.rs
    for the matching implementation side).  Definitions only. *)
 From Coq Require Import NArith List Bool.
-From RQ Require Import Base.Outcome Base.Ints Base.ListX Spec.Linear Spec.Layout Spec.Code Spec.Tuple
+From RQ Require Import Base.Outcome Base.Ints Base.ListX Spec.Linear Spec.Layout Spec.Code Spec.Tuple Spec.Prime Spec.Tables_RFC
   Model.Octet Model.FieldFast Model.SysConst Model.Tuple Model.CMatrix Model.Layout Model.Slab
   Model.Encoder Model.Decoder Model.CertRun.
 Import ListNotations.
@@ -129,10 +129,18 @@ Definition run_intermediate (m : mode) (a : list N) : list N :=
          Ok (concat (sbe_C e))).
 
 (* ---- Spec oracle: packets as RFC 6330 prescribes them, through Spec.Code only ---- *)
+(* parameters from the RFC snapshot (Spec/Tables_RFC.v), NOT from the tables of the current source:
+   K' = least table size >= K, P1 = least prime >= P by search *)
+Fixpoint next_prime (fuel : nat) (n : N) : N :=
+  match fuel with
+  | O => n
+  | S f => if Spec.Prime.is_prime n then n else next_prime f (n + 1)
+  end.
+
 Definition spec_params (K : N) : option cparams :=
-  match sys_params K with
-  | Ok sp => Some (mkCP (spK sp) (spJ sp) (spS sp) (spH sp) (spW sp) (spP1 sp))
-  | Panic _ => None
+  match find (fun r => let '(k, _, _, _, _) := r in K <=? k) Spec.Tables_RFC.RFC_TABLE2 with
+  | Some (k, j, s, h, w) => Some (mkCP k j s h w (next_prime 200 (k + s + h - w)))
+  | None => None
   end.
 
 (* [T, nrep_start, nrep, data(K*T)] single block, N = 1: K source symbols then the repair symbols
